@@ -47,6 +47,7 @@ def run(chk, repo):
     accounting(chk, repo, "R11.2")
     assemble_rules(chk, repo, "R11.3")
     sterile(chk, repo)
+    writers_registered(chk, repo)
 
 
 def consts(repo):
@@ -675,6 +676,76 @@ def assemble_rules(chk, repo, rule):
            "6 sizes around the limit")
 
 
+WRITES = {"APWR", "APRW", "FPWR", "FPRW", "BWR", "BRW", "LWR", "LRW",
+          "ARMW", "FRMW"}
+
+
+def writers_registered(chk, repo, rule="R11.4"):
+    """every datagram with a writing command that is put into a sync
+    group's packet is put there through append_writer (which records it for
+    sterile() and activate()); a plain append of a write command leaves it
+    enabled in the passive frame.  Looked at: every `<packet>.append(cmd,
+    ...)` / `.append_writer(cmd, ...)` in the code that fills sync-group
+    packets (ebpfcat.py, terminals.py), the command being an ECCmd member
+    or a parameter whose arguments are ECCmd members at every call."""
+    mods = [repo.module("ebpfcat.ebpfcat"), repo.module("ebpfcat.terminals")]
+    funcs = list(repo.all_functions(mods))
+    n = 0
+
+    def members(expr, fn, depth=0):
+        """the ECCmd members expr may stand for (None: not a command)"""
+        dn = dotted(expr) or ""
+        if dn.startswith("ECCmd."):
+            return {dn.split(".")[1]}
+        if isinstance(expr, ast.Name) and fn is not None and depth < 2 \
+                and expr.id in param_names(fn):
+            idx = param_names(fn).index(expr.id)
+            out = set()
+            for g in funcs:
+                for c in walk_no_nested(g):
+                    if isinstance(c, ast.Call) and (dotted(c.func) or ""
+                                                    ).split(".")[-1] == \
+                            fn.name and g is not fn:
+                        off = 1 if param_names(fn)[:1] == ["self"] and \
+                            isinstance(c.func, ast.Attribute) else 0
+                        a = None
+                        if idx - off < len(c.args) and idx - off >= 0:
+                            a = c.args[idx - off]
+                        for k in c.keywords:
+                            if k.arg == expr.id:
+                                a = k.value
+                        if a is not None:
+                            m_ = members(a, g, depth + 1)
+                            if m_:
+                                out |= m_
+            return out or None
+        return None
+    for fn in funcs:
+        q = func_qual(repo, fn.body[0])
+        if q.endswith(("SterilePacket.append_writer",
+                       "SterilePacket.append")):
+            continue        # the registration itself and what it wraps
+        for c in walk_no_nested(fn):
+            if not (isinstance(c, ast.Call) and isinstance(
+                    c.func, ast.Attribute) and c.func.attr in (
+                        "append", "append_writer") and c.args):
+                continue
+            ms = members(c.args[0], fn)
+            if not ms:
+                continue
+            n += 1
+            wr = sorted(ms & WRITES)
+            ok = not wr or c.func.attr == "append_writer"
+            chk.ob(rule, q, f"datagram {'/'.join(sorted(ms))} is "
+                   f"{'registered as a writer' if wr else 'a reader'}", ok,
+                   c, f"`{unparse(c)[:70]}`: a write command appended "
+                   f"without append_writer stays enabled in the sterile "
+                   f"frame and is neither re-enabled, checked nor cleared "
+                   f"by activate()" if not ok else
+                   f"{c.func.attr}({', '.join(sorted(ms))}, ...)")
+    chk.floor(rule, "datagrams put into sync-group packets", n, 6)
+
+
 def sterile(chk, repo):
     S = "ebpfcat.ebpfcat.SterilePacket"
     ci, ev, K = consts(repo)
@@ -709,22 +780,76 @@ def sterile(chk, repo):
            "the offset of the datagram's command byte")
     st = repo.func(S + ".sterile")
     chk.analysed(S + ".sterile")
-    w = [s for s in walk_no_nested(st) if isinstance(s, ast.Assign)
-         and isinstance(s.targets[0], ast.Subscript)]
-    ok = len(w) == 1 and match("ECCmd.NOP.value", w[0].value) is not None
-    if ok:
-        lp = w[0]._parent
-        ok = isinstance(lp, ast.For) and match("self.on_the_fly", lp.iter) \
-            is not None and isinstance(lp.target, ast.Tuple) and unparse(
-                lp.target.elts[0]) == unparse(w[0].targets[0].slice)
+    # sterile(), by abstract execution on packets built through append /
+    # append_writer (a writer that does not fit included): the frame is the
+    # assembled one with the command byte of every writer - and nothing
+    # else - replaced by NOP, and the packet itself stays as it was
+    sp = repo.cls(S)
+    ecc = repo.cls("ebpfcat.ethercat.ECCmd")
+    cmds = Evaluator(repo, sp.module, sp).enum_members(ecc)
+    nop = cmds["NOP"].value
+    plans = [
+        [("r", "FPRD", 4), ("w", "FPWR", 3), ("r", "LRD", 8),
+         ("w", "LWR", 2)],
+        [("w", "FPWR", 1)],
+        [("r", "FPRD", 2), ("r", "BRD", 2)],
+        [("w", "LWR", 700), ("w", "FPWR", 900), ("r", "FPRD", 6),
+         ("w", "FPWR", 5)],
+        [],
+    ]
+    bad = []
+    for plan in plans:
+        ev_ = Evaluator(repo, sp.module, sp)
+        try:
+            me = ev_.construct(sp, [], {})
+            pos = K["PACKET_HEADER"]
+            writers = []
+            for kind, cn, ln in plan:
+                addr = (0x10000,) if cn.startswith("L") else (3, 0x1000)
+                meth = "append_writer" if kind == "w" else "append"
+                try:
+                    ev_.call(ev_.getattr(me, meth), [
+                        cmds[cn], bytes((7 * i + 1) % 251
+                                        for i in range(ln)), 0] + list(addr))
+                except Raised as e:
+                    if "OverflowError" not in e.what:
+                        raise
+                    continue        # did not fit: nothing may be recorded
+                if kind == "w":
+                    writers.append(pos)
+                pos += K["DATAGRAM_HEADER"] + ln + K["DATAGRAM_TAIL"]
+            before = [tuple(d) for d in me.fields["data"]]
+            plain = bytes(ev_.call(ev_.getattr(me, "assemble"), [77]))
+            got = ev_.call(ev_.getattr(me, "sterile"), [77])
+            plain2 = bytes(ev_.call(ev_.getattr(me, "assemble"),
+                                    [5, 0x88b5]))
+            got2 = ev_.call(ev_.getattr(me, "sterile"), [5, 0x88b5])
+            got3 = ev_.call(ev_.getattr(me, "sterile"), [5],
+                            {"ethertype": 0x88b5})
+        except (Unknown, Raised) as e:
+            raise AnalysisError(f"{S}.sterile: cannot be evaluated: {e}")
+        want = bytearray(plain)
+        want2 = bytearray(plain2)
+        for w_ in writers:
+            want[w_] = nop
+            want2[w_] = nop
+        tag = "datagrams " + ", ".join(f"{c}{'*' if k == 'w' else ''}"
+                                       for k, c, _ in plan)
+        if bytes(got2) != bytes(want2) or bytes(got3) != bytes(want2):
+            bad.append(f"{tag}: with another ethertype the sterile frame "
+                       f"is not the assembled one")
+        elif bytes(got) != bytes(want):
+            diff = [i for i in range(min(len(got), len(want)))
+                    if got[i] != want[i]]
+            bad.append(f"{tag}: bytes {diff[:4]} differ from the assembled "
+                       f"frame with the writers' command bytes "
+                       f"{writers} set to NOP")
+        elif [tuple(d) for d in me.fields["data"]] != before:
+            bad.append(f"{tag}: the packet itself was changed")
     chk.ob("R11.4", S + ".sterile", "writes only NOP, only at recorded "
-           "positions", ok, st, "for pos, _, cmd in on_the_fly: ret[pos] = "
-           "NOP")
-    src = [s for s in walk_no_nested(st) if isinstance(s, ast.Assign)
-           and match("bytearray(self.assemble(index, ethertype))", s.value)
-           is not None]
-    chk.ob("R11.4", S + ".sterile", "works on a copy of assemble()'s output",
-           len(src) == 1, st, "bytearray(self.assemble(...))")
+           "positions, on a copy of assemble()'s output", not bad, st,
+           "; ".join(bad[:2]) or f"{len(plans)} packets by abstract "
+           f"execution (readers, writers, a writer that does not fit)")
     ap = repo.func(S + ".append")
     chk.analysed(S + ".append")
     sup = find("super().append(cmd, *args, wkc=counter)", ap)
